@@ -519,7 +519,7 @@ func runC12(tier string) int {
 			if strings.HasSuffix(op, ":F") {
 				// the drawer's source breaks down in the middle of this call: failing closed with the
 				// source's error is what the call does alone
-				baseline[op] = "NS-ERROR:unexpected EOF"
+				baseline[op] = "NS-failed-closed"
 			}
 			continue
 		}
